@@ -21,7 +21,7 @@ Z = z3.IntSort()
 STEP_Y = z3.Function('STEP_Y', R, R, TS, XS, TS)
 STEP_E = z3.Function('STEP_E', R, R, TS, XS, XS)
 INTERP = z3.Function('INTERP', R, TS, R, TS, R, TS)
-ERR = z3.Function('ERR', TS, TS, R)
+ERR = z3.Function('ERR', TS, TS, R, R, R)       # compute_error(y_full, y_two_halves, rtol, atol): mixed rtol/atol RMS norm (its body: ComputeErrorBody)
 
 
 # ------------------------------------------------------------------------------------------
@@ -264,7 +264,7 @@ class ComputeErrorContract(Contract):
     EPS = z3.RealVal('1/10000000')
 
     def apply(self, E, cx, a, lineno):
-        r = ERR(a['y11'].e, a['y12'].e)
+        r = ERR(a['y11'].e, a['y12'].e, to_z3(a['rtol']), to_z3(a['atol']))
         cx.assume(r >= self.EPS)
         return SV(r)
 
